@@ -771,6 +771,9 @@ def check(ix, rep):
     check_accumulation(ix, rep, cls)
     nfp = check_footprints(ix, rep, cls, hs)
     nnm = check_nonmonotone(ix, rep, cls, hs)
+    from sa.rules import units as _u
+    npa = _u.check_period_reaches_ast(ix, rep)
+    rep.floor('sampling settings the explainer reads from the ast', npa, 2)
     from sa.rules import unitflow
     nrb = unitflow.check_raw_bounds(ix, rep, prefixes=('rtamt/explanation/', 'rtamt/pastifier/stl/horizon'), label='explainer')
     rep.floor('functions reading the bounds of a timed node (explainer and its normaliser)', nrb, 1)
